@@ -52,7 +52,12 @@ func init() {
 		// type table; index 2 is "the type parameter" and is substituted per context
 		const tparamIdx = 2
 		typeNames := []string{"int", "string", "T", "*S", "[]S", "q.N"}
+		aliasN := types.NewAlias(types.NewTypeName(token.NoPos, pkgP, "AN", nil), namedN)
+		useAlias := false
 		mkType := func(i int, tparam types.Type) types.Type {
+			if i == 5 && useAlias {
+				return aliasN
+			}
 			switch i {
 			case 0:
 				return types.Typ[types.Int]
@@ -152,6 +157,10 @@ func init() {
 							st := build(shape, fpkg, tagMode, types.Typ[types.Int])
 							add(member{st, fmt.Sprintf("plain fields-in=%s tags=%d", fpkg.Name(), tagMode)})
 							if tagMode == 0 {
+								// the same struct with q.N spelled through an alias (identical type)
+								useAlias = true
+								add(member{build(shape, fpkg, 0, types.Typ[types.Int]), "q.N spelled via alias, fields-in=" + fpkg.Name()})
+								useAlias = false
 								// underlying of a named type and behind an alias
 								tn := types.NewTypeName(token.NoPos, fpkg, "Named", nil)
 								named := types.NewNamed(tn, st, nil)
@@ -168,21 +177,23 @@ func init() {
 						gtn := types.NewTypeName(token.NoPos, fpkg, "G", nil)
 						gen := types.NewNamed(gtn, origin, nil)
 						gen.SetTypeParams([]*types.TypeParam{tp})
-						inst, err := types.Instantiate(nil, gen, []types.Type{types.Typ[types.Int]}, true)
-						if err != nil {
-							panic(err)
-						}
-						res.GenericInst++
-						instSt := inst.Underlying().(*types.Struct)
-						plain := build(shape, fpkg, tagMode, types.Typ[types.Int])
-						add(member{plain, fmt.Sprintf("plain(T:=int) fields-in=%s tags=%d", fpkg.Name(), tagMode)})
-						add(member{instSt, fmt.Sprintf("underlying of G[int] fields-in=%s tags=%d", fpkg.Name(), tagMode)})
-						// the origin is not identical to the instance for go/types, but garble names fields from the origin:
-						// the names must coincide with those of the instantiation (this is what makes conversions compile).
-						on, in := names(origin), names(instSt)
-						for i := range on {
-							if on[i] != in[i] {
-								addV("generic-origin-vs-instance", fmt.Sprintf("seeded=%v shape %s: field %d named %q in the generic origin but %q in its instantiation", seeded, c15ShapeString(shape, typeNames), i, on[i], in[i]))
+						for _, targ := range []types.Type{types.Typ[types.Int], namedN, types.NewPointer(namedS)} {
+							inst, err := types.Instantiate(nil, gen, []types.Type{targ}, true)
+							if err != nil {
+								panic(err)
+							}
+							res.GenericInst++
+							instSt := inst.Underlying().(*types.Struct)
+							plain := build(shape, fpkg, tagMode, targ)
+							add(member{plain, fmt.Sprintf("plain(T:=%s) fields-in=%s tags=%d", targ, fpkg.Name(), tagMode)})
+							add(member{instSt, fmt.Sprintf("underlying of G[%s] fields-in=%s tags=%d", targ, fpkg.Name(), tagMode)})
+							// the origin is not identical to the instance for go/types, but garble names fields from the origin:
+							// the names must coincide with those of the instantiation (this is what makes conversions compile).
+							on, in := names(origin), names(instSt)
+							for i := range on {
+								if on[i] != in[i] {
+									addV("generic-origin-vs-instance", fmt.Sprintf("seeded=%v shape %s: field %d named %q in the generic origin but %q in its instantiation with %s", seeded, c15ShapeString(shape, typeNames), i, on[i], in[i], targ))
+								}
 							}
 						}
 					}
